@@ -363,6 +363,8 @@ func storeRecord(ctx, tokenId, name, typ, id, data)
         && deser_RecordState(store.get(rkey(tokenId, name, typ, id))) == RecordState{name, typ, data, id}
   ensures [C12] forall k Bytes {store.opt(k)} :: k != rkey(tokenId, name, typ, id) ==> store.opt(k) == old(store).opt(k)
   ensures notifs == old(notifs)
+  // shape of the key written (what the schema invariant needs at call sites)
+  ensures [C12] len(rkey(tokenId, name, typ, id)) == 43 && rkey(tokenId, name, typ, id)[41] == typ && prefix("\x22", rkey(tokenId, name, typ, id))
 
 // registration writes the SOA record of the name: type 6, index 0, under the name that holds its records, with the text
 // "<name> <email> <now> <refresh> <retry> <expire> <ttl>"; nothing else changes
@@ -373,6 +375,7 @@ func putSoaRecord(ctx, name, email, refresh, retry, expire, ttl)
   ensures [C12] forall k Bytes {store.opt(k)} :: k != rkey(tokenOf(old(store), name), name, 6, 0) ==> store.opt(k) == old(store).opt(k)
   ensures forall k Bytes {store.opt(k)} :: !prefix("\x22", k) ==> store.opt(k) == old(store).opt(k)
   ensures notifs == old(notifs)
+  ensures [C12] len(rkey(tokenOf(old(store), name), name, 6, 0)) == 43 && rkey(tokenOf(old(store), name), name, 6, 0)[41] == 6
 
 // every mutation refreshes the SOA serial of the name that holds the records: the SOA record (type 6, index 0) of the
 // token keeps its name, type, index and the other six fields of its text; the third field becomes the current time
@@ -741,6 +744,44 @@ func SetPrice(price)
 
 func Update(nef, manifest, data)
   ensures [C11] W(cmtaddr())
+@*/
+
+/*@
+module genesis
+props C10
+use nns names
+use nns state
+use nns records
+use nns ownership
+dialect neovm
+
+// Base of the induction behind the package invariants of module ownership: the first deployment (empty storage; it stores
+// the supply counter 0 and the price and registers the predefined TLDs through saveCommitteeDomain) establishes them.
+func _deploy(data, isUpdate)
+  requires !isUpdate
+  requires forall x Bytes {store.opt(x)} :: !store.has(x)
+  ensures [C10] InvInit && InvNames && InvSupply
+  loop 1
+    invariant InvInit
+    invariant InvNames
+    invariant InvSupply
+@*/
+
+/*@
+module genesisrec
+props C12
+use nns names
+use nns state
+use nns records
+dialect neovm
+
+// ... and the schema of the record store (module records); kept apart from the sums above, which only clutter this proof
+func _deploy(data, isUpdate)
+  requires !isUpdate
+  requires forall x Bytes {store.opt(x)} :: !store.has(x)
+  ensures [C12] InvRecords
+  loop 1
+    invariant InvRecords
 @*/
 
 /*@
